@@ -103,17 +103,20 @@ func (cp *CertificatePoliciesData) MarshalJSON() ([]byte, error) {
 			cpsJSON.CPSUri = append(cpsJSON.CPSUri, uri)
 		}
 
-		for idx2, explicit_text := range cp.ExplicitTexts[idx] {
-			uNoticeData := UserNoticeData{}
-			uNoticeData.ExplicitText = explicit_text
-			noticeRef := NoticeReference{}
-			if len(cp.NoticeRefOrganization[idx]) > 0 {
-				organization := cp.NoticeRefOrganization[idx][idx2]
-				noticeRef.Organization = organization
-				noticeRef.NoticeNumbers = cp.NoticeRefNumbers[idx][idx2]
-				uNoticeData.NoticeReference = append(uNoticeData.NoticeReference, noticeRef)
+		// ExplicitTexts and NoticeRef* are filled independently by the parser
+		// (a notice may carry either part), so they cannot be paired by
+		// position; UserNotices keeps each notice's parts together.
+		if idx < len(cp.UserNotices) {
+			for _, un := range cp.UserNotices[idx] {
+				uNoticeData := UserNoticeData{}
+				if un.ExplicitText != nil {
+					uNoticeData.ExplicitText = *un.ExplicitText
+				}
+				if un.NoticeReference != nil {
+					uNoticeData.NoticeReference = append(uNoticeData.NoticeReference, *un.NoticeReference)
+				}
+				cpsJSON.UserNotice = append(cpsJSON.UserNotice, uNoticeData)
 			}
-			cpsJSON.UserNotice = append(cpsJSON.UserNotice, uNoticeData)
 		}
 
 		policies = append(policies, cpsJSON)
